@@ -68,7 +68,7 @@ type tr struct {
 }
 
 func (t *tr) unsupported(what string, n ast.Node) string {
-	return fmt.Sprintf(".unsupported %s", lq(fmt.Sprintf("%s@%d", what, fset.Position(n.Pos()).Line)))
+	return fmt.Sprintf("(.unsupported %s)", lq(fmt.Sprintf("%s@%d", what, fset.Position(n.Pos()).Line)))
 }
 
 func isLogging(e ast.Expr) bool {
